@@ -57,7 +57,8 @@ def _abs_bound(expr, env, one):
             acc = np.maximum(acc, _abs_bound(e, env, one))
         return acc
     if isinstance(expr, (sp.sin, sp.cos)):
-        return one
+        # |sin(a (1 + d)) - sin(a)| <= |a| |d|: the rounding of the argument carries over with its magnitude
+        return one + _abs_bound(expr.args[0], env, one)
     raise HarnessError(f"abs bound: unsupported node {type(expr).__name__}")
 
 
